@@ -69,6 +69,9 @@ type callRow struct {
 	Caller string     `json:"caller"`
 	Line   int        `json:"line"`
 	Locks  []heldLock `json:"locks"`
+	// Async: a `go` or `defer` call - it does not run at this point of the caller, so what the caller holds here
+	// says nothing about what is held when the callee runs
+	Async bool `json:"async"`
 }
 
 type lockSet []heldLock
@@ -109,6 +112,8 @@ type acqRow struct {
 }
 
 type accessWalker struct {
+	rels    *[]acqRow
+	async   bool
 	acqs    *[]acqRow
 	pi      *pkgInfo
 	rel     string
@@ -285,7 +290,7 @@ func (w *accessWalker) exprs(n ast.Node, held lockSet) {
 			return false
 		case *ast.CallExpr:
 			if c := calleeName(w.pi, v); c != "" {
-				*w.calls = append(*w.calls, callRow{c, w.fn, fset.Position(v.Pos()).Line, held.sorted()})
+				*w.calls = append(*w.calls, callRow{c, w.fn, fset.Position(v.Pos()).Line, held.sorted(), w.async})
 			}
 		case *ast.SelectorExpr:
 			if name, ok := fieldOf(w.pi, v); ok && w.tracked[name] {
@@ -321,10 +326,17 @@ func (w *accessWalker) stmt(s ast.Stmt, held lockSet) lockSet {
 		case "RLock":
 			*w.acqs = append(*w.acqs, acqRow{w.fn, name, false})
 			return held.add(name, false)
-		case "Unlock":
-			return held.drop(name, true)
-		case "RUnlock":
-			return held.drop(name, false)
+		case "Unlock", "RUnlock":
+			excl := op == "Unlock"
+			has := false
+			for _, h := range held {
+				has = has || (h.Name == name && h.Excl == excl)
+			}
+			if !has && w.rels != nil {
+				// releases a mutex this function did not take: it opens a window in its callers' regions
+				*w.rels = append(*w.rels, acqRow{w.fn, name, excl})
+			}
+			return held.drop(name, excl)
 		}
 	}
 	switch v := s.(type) {
@@ -404,7 +416,7 @@ func (w *accessWalker) stmt(s ast.Stmt, held lockSet) lockSet {
 		} else {
 			w.exprs(v.Call.Fun, held)
 			if c := calleeName(w.pi, v.Call); c != "" {
-				*w.calls = append(*w.calls, callRow{c, w.fn + " (go)", fset.Position(v.Pos()).Line, nil})
+				*w.calls = append(*w.calls, callRow{c, w.fn + " (go)", fset.Position(v.Pos()).Line, nil, true})
 			}
 		}
 		return held
@@ -416,7 +428,9 @@ func (w *accessWalker) stmt(s ast.Stmt, held lockSet) lockSet {
 				return held
 			}
 		}
-		w.exprs(v.Call, held)
+		sub := *w
+		sub.async = true
+		sub.exprs(v.Call, held)
 		return held
 	default:
 		w.exprs(s, held)
@@ -429,9 +443,10 @@ func extractAccessTable() {
 	defer l.write()
 	var rows []accessRow
 	var calls []callRow
-	var acqs []acqRow
+	var acqs, rels []acqRow
 	var callbacks []callbackInfo
 	var dynFields []string
+	funcs := map[string]*funcFacts{}
 	dirs := make([]string, 0, len(accessFields))
 	for d := range accessFields {
 		dirs = append(dirs, d)
@@ -496,11 +511,17 @@ func extractAccessTable() {
 				if !ok || fd.Body == nil {
 					continue
 				}
+				noteFunc(funcs, pi, fd)
 				w := &accessWalker{pi: pi, rel: rel, fn: funcName(pi, fd), tracked: tracked,
-					writes: map[*ast.SelectorExpr]bool{}, rows: &rows, calls: &calls, acqs: &acqs}
+					writes: map[*ast.SelectorExpr]bool{}, rows: &rows, calls: &calls, acqs: &acqs, rels: &rels}
 				w.findWrites(fd.Body)
 				w.block(fd.Body.List, nil)
 			}
+		}
+	}
+	for _, dir := range dirs {
+		if pi := loadPkg(dir); pi != nil {
+			noteFuncValues(funcs, pi)
 		}
 	}
 	for _, cb := range callbacks {
@@ -519,6 +540,7 @@ func extractAccessTable() {
 	for _, r := range rows {
 		seenField[r.Field] = true
 	}
+	inferred := inferCallerHolds(calls, funcs)
 	// keep the call rows whose callee touches tracked state directly, or reaches (through at most two
 	// intermediate functions) something that does: enough to justify "helper of a helper" lock claims
 	direct := map[string]bool{}
@@ -542,7 +564,7 @@ func extractAccessTable() {
 	}
 	var keep []callRow
 	for _, c := range calls {
-		if reach[c.Callee] {
+		if reach[c.Callee] || len(inferred[c.Callee]) > 0 {
 			keep = append(keep, c)
 		}
 	}
@@ -561,7 +583,7 @@ func extractAccessTable() {
 		rs = append(rs, fmt.Sprintf("  ⟨%s, %s, %s, %s, %d, %s, %s⟩", in.ref(r.Field), lbool(r.Write), in.ref(r.Fn), lq(r.File), r.Line, locks(r.Locks), lbool(r.InGo)))
 	}
 	for _, c := range calls {
-		cs = append(cs, fmt.Sprintf("  ⟨%s, %s, %d, %s⟩", in.ref(c.Callee), in.ref(strings.TrimSuffix(c.Caller, " (go)")), c.Line, locks(c.Locks)))
+		cs = append(cs, fmt.Sprintf("  ⟨%s, %s, %d, %s, %s⟩", in.ref(c.Callee), in.ref(strings.TrimSuffix(c.Caller, " (go)")), c.Line, locks(c.Locks), lbool(c.Async)))
 	}
 	// lock acquisitions of the functions that occur as callees of the kept call rows (re-entrant locking check)
 	callee := map[string]bool{}
@@ -582,6 +604,26 @@ func extractAccessTable() {
 			fields = append(fields, in.ref(f))
 		}
 	}
+	var rls []string
+	seenRel := map[acqRow]bool{}
+	for _, a := range rels {
+		if !seenRel[a] {
+			seenRel[a] = true
+			rls = append(rls, fmt.Sprintf("  ⟨%s, %s, %s⟩", in.ref(a.Fn), in.ref(a.Lock), lbool(a.Excl)))
+			fmt.Printf("extract: C18 %s unlocks %s without having locked it\n", a.Fn, a.Lock)
+		}
+	}
+	var infs []string
+	var infNames []string
+	for fn := range inferred {
+		infNames = append(infNames, fn)
+	}
+	sort.Strings(infNames)
+	for _, fn := range infNames {
+		for _, h := range inferred[fn] {
+			infs = append(infs, fmt.Sprintf("  ⟨%s, %s, %s⟩", in.ref(fn), in.ref(h.Name), lbool(h.Excl)))
+		}
+	}
 	sort.Strings(dynFields)
 	for _, f := range dynFields {
 		if seenField[f] {
@@ -597,11 +639,14 @@ func extractAccessTable() {
 	l.sb.WriteString("/-- a per-response callback handed to the work manager (query.Request.HandleResp); `multi`: registered in a loop, so the callbacks of one query can run on several worker goroutines at once -/\nstructure Callback where\n  fn : Nat\n  multi : Bool\n  deriving Repr, DecidableEq\n\n")
 	l.sb.WriteString("structure Held where\n  lock : Nat\n  excl : Bool\n  deriving Repr, DecidableEq\n\n")
 	l.sb.WriteString("structure Access where\n  field : Nat\n  write : Bool\n  fn : Nat\n  file : String\n  line : Nat\n  held : List Held\n  inGo : Bool\n  deriving Repr\n\n")
-	l.sb.WriteString("structure Call where\n  callee : Nat\n  caller : Nat\n  line : Nat\n  held : List Held\n  deriving Repr\n\n")
+	l.sb.WriteString("structure Call where\n  callee : Nat\n  caller : Nat\n  line : Nat\n  held : List Held\n  async : Bool\n  deriving Repr\n\n")
 	l.def("rows", "List Access", "[\n"+strings.Join(rs, ",\n")+"]", "every access to a tracked field")
 	l.def("calls", "List Call", "[\n"+strings.Join(cs, ",\n")+"]", "calls to the functions that touch tracked fields (and to their direct callers), with the locks held at the call")
 	l.sb.WriteString("structure Acq where\n  fn : Nat\n  lock : Nat\n  excl : Bool\n  deriving Repr\n\n")
 	l.def("acquires", "List Acq", "[\n"+strings.Join(as, ",\n")+"]", "mutexes the called functions lock themselves (Lock / RLock in their own body)")
+	l.sb.WriteString("/-- helper `fn` is only ever called with `lock` held (exclusively if `excl`) -/\nstructure Holds where\n  fn : Nat\n  lock : Nat\n  excl : Bool\n  deriving Repr\n\n")
+	l.def("foreignUnlocks", "List Holds", "[\n"+strings.Join(rls, ",\n")+"]", "functions that unlock a mutex they did not lock themselves (Unlock / RUnlock with nothing lexically held): the lock regions of their callers are not what they look like")
+	l.def("inferredHolds", "List Holds", "[\n"+strings.Join(infs, ",\n")+"]", "computed by the extractor: unexported functions, never used as a value, ALL of whose call sites (none of them `go`/`defer`) lie in a region where the lock is held, lexically or because the caller is such a helper itself; re-checked against the call rows by C18_caller_holds")
 	l.def("callbacks", "List Callback", "[\n"+strings.Join(cbs, ",\n")+"]", "per-response callbacks registered with the work manager; their receiver fields / captured variables are tracked fields")
 	l.def("fields", "List Nat", "["+strings.Join(fields, ", ")+"]", "the tracked fields")
 	facts["accesstable"] = map[string]any{"rows": rows, "calls": calls, "callbacks": callbacks}
@@ -612,4 +657,144 @@ func extractAccessTable() {
 			fmt.Printf("extract: C18 unlocked write %s in %s (%s:%d)\n", r.Field, r.Fn, r.File, r.Line)
 		}
 	}
+}
+
+// ---- caller-holds inference ------------------------------------------------
+
+type funcFacts struct {
+	exported bool // exported name: callable from other packages
+	asValue  bool // used other than as the callee of a call (method value, callback, ...)
+}
+
+func noteFunc(funcs map[string]*funcFacts, pi *pkgInfo, fd *ast.FuncDecl) {
+	funcs[funcName(pi, fd)] = &funcFacts{exported: fd.Name.IsExported()}
+}
+
+// noteFuncValues marks the functions of the loaded packages that are referenced as values.
+func noteFuncValues(funcs map[string]*funcFacts, pi *pkgInfo) {
+	if pi.info == nil {
+		return
+	}
+	for _, f := range pi.files {
+		callee := map[*ast.Ident]bool{}
+		ast.Inspect(f, func(n ast.Node) bool {
+			if ce, ok := n.(*ast.CallExpr); ok {
+				switch v := ast.Unparen(ce.Fun).(type) {
+				case *ast.Ident:
+					callee[v] = true
+				case *ast.SelectorExpr:
+					callee[v.Sel] = true
+				case *ast.IndexExpr:
+					if se, ok := v.X.(*ast.SelectorExpr); ok {
+						callee[se.Sel] = true
+					} else if id, ok := v.X.(*ast.Ident); ok {
+						callee[id] = true
+					}
+				}
+			}
+			return true
+		})
+		ast.Inspect(f, func(n ast.Node) bool {
+			id, ok := n.(*ast.Ident)
+			if !ok || callee[id] {
+				return true
+			}
+			fn, ok := pi.info.Uses[id].(*types.Func)
+			if !ok {
+				return true
+			}
+			name := funcObjName(fn)
+			if ff := funcs[name]; ff != nil {
+				ff.asValue = true
+			}
+			return true
+		})
+	}
+}
+
+// funcObjName: the table name of a function object (same scheme as calleeName).
+func funcObjName(fn *types.Func) string {
+	if fn == nil || fn.Pkg() == nil {
+		return ""
+	}
+	fn = fn.Origin()
+	path := fn.Pkg().Path()
+	if path != modPath && !strings.HasPrefix(path, modPath+"/") {
+		return ""
+	}
+	prefix := ""
+	if path != modPath {
+		prefix = fn.Pkg().Name() + "."
+	}
+	if sig, _ := fn.Type().(*types.Signature); sig != nil && sig.Recv() != nil {
+		t := sig.Recv().Type()
+		if p, ok := t.(*types.Pointer); ok {
+			t = p.Elem()
+		}
+		if n, ok := t.(*types.Named); ok {
+			return prefix + n.Obj().Name() + "." + fn.Name()
+		}
+		return ""
+	}
+	return prefix + fn.Name()
+}
+
+// inferCallerHolds: for every unexported function that is never used as a value and has at least one call
+// site, the mutexes held at ALL its call sites (lexically, or because the caller is itself such a function);
+// `go` and `defer` call sites hold nothing.  Least fixpoint from the empty assignment.
+func inferCallerHolds(calls []callRow, funcs map[string]*funcFacts) map[string][]heldLock {
+	sites := map[string][]callRow{}
+	for _, c := range calls {
+		sites[c.Callee] = append(sites[c.Callee], c)
+	}
+	holds := map[string][]heldLock{}
+	for round := 0; round < 6; round++ {
+		changed := false
+		for fn, cs := range sites {
+			ff := funcs[fn]
+			if ff == nil || ff.exported || ff.asValue {
+				continue
+			}
+			var inter []heldLock
+			for i, c := range cs {
+				var eff []heldLock
+				if !c.Async {
+					eff = append(append(eff, c.Locks...), holds[strings.TrimSuffix(c.Caller, " (go)")]...)
+				}
+				if i == 0 {
+					inter = lockSet(eff).sorted()
+					continue
+				}
+				var keep []heldLock
+				for _, a := range inter {
+					for _, b := range eff {
+						if a.Name == b.Name {
+							keep = append(keep, heldLock{a.Name, a.Excl && b.Excl})
+							break
+						}
+					}
+				}
+				inter = keep
+			}
+			if len(inter) != len(holds[fn]) {
+				changed = true
+			} else {
+				for i := range inter {
+					if inter[i] != holds[fn][i] {
+						changed = true
+					}
+				}
+			}
+			holds[fn] = inter
+		}
+		if !changed {
+			break
+		}
+	}
+	for fn, h := range holds {
+		if len(h) == 0 {
+			delete(holds, fn)
+		}
+	}
+	return holds
 }
